@@ -152,6 +152,12 @@ def abstract_to_list(L):
 
 
 # ------------------------------------------------------------------ layout instantiation
+def _other_value(v, dt):
+    if dt in ("b", "bool"):
+        return 1 - v
+    return (v + 50) if isinstance(v, (int, float)) and not isinstance(v, bool) else v
+
+
 def instantiate(L, pick, strided=False):
     """abstract TLA+ layout record -> LJSON for the worker; `pick(options)` chooses index widths.
     strided: multidimensional NumpyArrays are, one time in three, views into a larger buffer (a column range of a wider
@@ -162,6 +168,12 @@ def instantiate(L, pick, strided=False):
         out["dt"] = DT_ALIAS.get(L.get("dt", "int64"), L.get("dt", "int64"))
         if out["dt"] in ("f64", "f32"):
             out["d"] = ["nan" if x == -777 else x for x in L["d"]]
+        if strided and "shape" not in L and "p" not in L and len(L["d"]) >= 1 and pick([0, 0, 0, 1]) == 1:
+            # one time in four a one-dimensional leaf is every second element of a wider buffer (x[1::2] of a NumPy array)
+            buf = []
+            for v in out["d"]:
+                buf += [_other_value(v, out["dt"]), v]
+            out.update(d=buf, shape=[len(L["d"])], st=[2], off=1)
         return out
     if c == "Str":
         bs = L.get("bs", 0)
